@@ -2,6 +2,7 @@ import Netconan.Proofs.SrcTieIp
 import Netconan.Proofs.SrcTieText
 import Netconan.Props.C03
 import Netconan.Props.C05
+import Netconan.Props.C17
 /-!
 # C01–C05, C17 on the *translated source* of the address core
 
@@ -101,6 +102,23 @@ theorem source_constructor_memo_invariant :
     ∃ c0, Src.seed_loop pins [([], [])] = .ok ((), c0) ∧ Inv h pins L B c0 := by
   obtain ⟨c0, hs, hI⟩ := seed_spec h pins L B
   exact ⟨c0, by rw [SrcTie.seed_tie, hs], hI⟩
+
+/-- **C17 on the source**: after any history of `anonymize` / `deanonymize` calls as written in the source, on the memo built by the
+source's seeding loop, `dump_to_file` as written lists every anonymized address with the image that was returned (as integers), and
+what it lists is the full-length part of the memo, on which `C17.dump_is_applied_map` holds. -/
+theorem source_dump_is_applied_map (hL : 0 < L) (ops : List Op) (hops : ∀ op ∈ ops, op.arg < 2 ^ L) :
+    ∃ c0 c', Src.seed_loop pins [([], [])] = .ok ((), c0) ∧
+      SrcTie.srcRun h L B c0 ops = .ok (ops.map (answer h pins L B), c') ∧
+      Src.dump_to_file L c' = (dump L c').map (fun e => (ofBits e.1, ofBits e.2)) ∧
+      (∀ n, Op.anon n ∈ ops → (ofBits (fmt L n), ofBits (fmt L (FN h pins L B n))) ∈ Src.dump_to_file L c') ∧
+      (∀ e ∈ dump L c', e.2 = Ffull h pins L B e.1) := by
+  obtain ⟨c0, c', hs, hr, hm, hf, _, _⟩ := C17.dump_is_applied_map h pins L B hL ops hops
+  refine ⟨c0, c', ?_, ?_, SrcTie.dump_to_file_tie L c', ?_, hf⟩
+  · rw [SrcTie.seed_tie, hs]
+  · rw [SrcTie.srcRun_tie, hr]
+  · intro n hn
+    rw [SrcTie.dump_to_file_tie]
+    exact List.mem_map.mpr ⟨_, hm n hn, rfl⟩
 
 /-- Non-vacuity: the translated functions run (kernel evaluation) – preserved prefix `10`, one host bit. -/
 example : Except.toOption (do
